@@ -303,6 +303,16 @@ def _fstring_spec_patterns(quote: str, raw: bool = False) -> str:
     return choice(LBrace=text + r"\{", RBrace=text + r"\}")
 
 
+# Compile every pattern at import. A first compilation in the middle of a parse happens at whatever depth the
+# parser's recursion has reached (the tokenizer is pulled lazily) and needs a dozen extra frames there and only
+# there, so a deeply nested input could fail the first time it was parsed and succeed from then on.
+_compile(PseudoToken)
+for _quote, _endpat in endpats.items():
+    _compile(_endpat)
+    for _raw in (False, True):
+        _compile(_fstring_patterns(_quote, _raw))
+        _compile(_fstring_spec_patterns(_quote, _raw))
+
 tabsize = 8
 
 
